@@ -32,8 +32,14 @@ use std::time::Duration;
 use vcore::Report;
 use vcore::dfs::{Chooser, DfsOpts};
 
-const KS: [&str; 2] = ["ks_one", "ks_two"];
 const STMT_PREFIX: &str = "INSERT INTO t (id) VALUES (";
+
+#[derive(Clone, Copy, Debug)]
+struct CallSpec {
+    raw: Option<&'static str>,
+    name: &'static str,
+    cs: bool,
+}
 
 #[derive(Clone, Copy, Debug)]
 struct Cfg {
@@ -41,7 +47,7 @@ struct Cfg {
     calls: usize,
     /// node 1 is a 2-shard Scylla node (pool = `pool` per shard)
     sharded: bool,
-    /// names of the two calls: 0 = ks_one then ks_two; 1 = ks_one twice; 2 = ks_one, then "ks_one" case-sensitively
+    /// what the two calls are, see `spec`
     variant: u8,
     kills: u32,
     adds: u32,
@@ -49,20 +55,40 @@ struct Cfg {
     max_steps: usize,
 }
 impl Cfg {
-    /// identity of the keyspace call k asks for: (index into KS, case-sensitive flag) - what the driver compares
-    fn ident(&self, k: usize) -> (usize, bool) {
-        match self.variant {
-            0 => (k, false),
-            1 => (0, false),
-            _ => (0, k == 1),
+    /// What call k is. `raw`: the keyspace is set with a plain statement (`session.query_unpaged("USE ..")`); the
+    /// driver then re-propagates the name the server acknowledged, case-sensitively, through the use_keyspace machinery.
+    fn spec(&self, k: usize) -> CallSpec {
+        let api = |name, cs| CallSpec { raw: None, name, cs };
+        let raw = |text, name| CallSpec { raw: Some(text), name, cs: true };
+        match (self.variant, k) {
+            (0, 0) => api("ks_one", false),
+            (0, _) => api("ks_two", false),
+            (1, _) => api("ks_one", false),
+            (2, 0) => api("ks_one", false),
+            (2, _) => api("ks_one", true),
+            // mixed-case / lower-case twins, raw statements
+            (3, 0) => raw("USE \"MyKs\"", "MyKs"),
+            (3, _) => api("myks", false),
+            (4, 0) => api("MyKs", false),
+            (4, _) => raw("USE \"MyKs\"", "MyKs"),
+            (5, 0) => raw("USE myks", "myks"),
+            (5, _) => api("MyKs", true),
+            (6, 0) => api("MyKs", true),
+            (_, _) => api("MyKs", false),
         }
     }
-    fn ks_name(&self, k: usize) -> &'static str {
-        KS[self.ident(k).0]
+    /// identity of the keyspace the pools are asked for by call k: (name as the driver holds it, case-sensitive flag)
+    fn ident(&self, k: usize) -> (&'static str, bool) {
+        let s = self.spec(k);
+        (s.name, s.cs)
     }
+    /// the keyspace a server resolves call k to (unquoted identifiers fold to lower case)
+    fn ks_name(&self, k: usize) -> String {
+        cqlref::ksname::server_resolves_to(self.spec(k).name, self.spec(k).cs)
+    }
+    /// statement the pools must send for call k
     fn use_text(&self, k: usize) -> String {
-        let (n, cs) = self.ident(k);
-        if cs { format!("USE \"{}\"", KS[n]) } else { format!("USE {}", KS[n]) }
+        cqlref::ksname::use_statement(self.spec(k).name, self.spec(k).cs)
     }
     /// call k asks for exactly what call k-1 asked for: a driver may legitimately treat it as a no-op
     fn repeat(&self, k: usize) -> bool {
@@ -145,6 +171,10 @@ struct World {
     inflight: Option<(usize, tokio::task::JoinHandle<bool>)>,
     /// call issued by the caller but not yet picked up by the cluster worker (which is busy bringing up a new node's pool)
     pending: Option<(usize, tokio::task::JoinHandle<bool>)>,
+    /// raw statement issued, its USE frame not yet seen / parked on some pool connection (which one is the client's
+    /// choice, so it is not part of the replayed state)
+    raw_wait: Option<(usize, tokio::task::JoinHandle<bool>)>,
+    raw_parked: Option<u64>,
     /// per node: some connection has been published by its pool at least once
     first_pooled: [bool; 3],
     snapshot: Vec<usize>,
@@ -169,7 +199,7 @@ impl World {
         let mut b = MockCluster::builder().node(NodeSpec::new("dc1", "r1", vec![-4_000_000_000_000_000_000, 2_000_000_000_000_000_000]));
         let n1 = NodeSpec::new("dc1", "r2", vec![-1_000_000_000_000_000_000, 5_000_000_000_000_000_000]);
         b = b.node(if cfg.sharded { n1.scylla(2, 12) } else { n1 });
-        for k in KS {
+        for k in ["ks_one", "ks_two", "MyKs", "myks"] {
             b = b.keyspace(KeyspaceSpec::simple(k, 1));
         }
         let cluster = b.build().await.map_err(stuck)?;
@@ -208,6 +238,8 @@ impl World {
             current: None,
             inflight: None,
             pending: None,
+            raw_wait: None,
+            raw_parked: None,
             first_pooled: [true, true, false],
             snapshot: Vec::new(),
             started: 0,
@@ -281,6 +313,9 @@ impl World {
                     if t0.elapsed() > mockcluster::DEADLINE {
                         return Err(stuck(e));
                     }
+                    if let Some(other) = self.cluster.held().iter().find(|a| a.conn == id && a.is_use_response() && a.statement() != Some(want.as_str())) {
+                        return Err(stuck(format!("connection {} was sent {:?} where the model expects {want:?}", self.conns[i].name(), other.statement().unwrap_or(""))));
+                    }
                     if self.conns[i].pooled && self.cfg.repeat(k) && self.flags[k].load(Ordering::SeqCst) != 0 {
                         // a repeated request for the same keyspace returned without a new USE round on this
                         // connection: allowed by the property (the oracle decides whether it was right to)
@@ -326,6 +361,21 @@ impl World {
                 if c.pooled {
                     self.first_pooled[c.node] = true;
                 }
+            }
+            if let (Some((k, _)), None) = (&self.raw_wait, self.raw_parked) {
+                let text = self.cfg.spec(*k).raw.unwrap();
+                let known: HashSet<u64> = self.conns.iter().filter_map(|c| c.use_parked.map(|u| u.0)).collect();
+                let pooled: HashSet<u64> = self.conns.iter().filter(|c| c.alive && c.pooled).map(|c| c.id).collect();
+                let a = self
+                    .cluster
+                    .wait_held(&format!("raw statement {text:?} on some pool connection"), |a| a.is_use_response() && a.statement() == Some(text) && !known.contains(&a.id))
+                    .await
+                    .map_err(stuck)?;
+                if !pooled.contains(&a.conn) {
+                    return Err(stuck(format!("raw statement {text:?} arrived on a connection the model holds to be outside the pools")));
+                }
+                self.raw_parked = Some(a.id);
+                progressed = true;
             }
             // the cluster worker publishes a new node only after its pool served its first connection; until then
             // it does not pick up use_keyspace requests
@@ -410,7 +460,7 @@ impl World {
     /// or may not reach the client (TCP discards unread data on reset), so e.g. `nak:X, kill:X` lets the call end Ok or
     /// Err; the enabled sets and the oracle do not depend on that.
     fn state_string(&self) -> String {
-        let mut s = format!("pend={:?} cur={:?} infl={:?} started={} k={} a={} n={};", self.pending.as_ref().map(|x| x.0), self.current, self.inflight.as_ref().map(|x| x.0), self.started, self.kills_left, self.adds_left, self.naks_left);
+        let mut s = format!("raw={}{} pend={:?} cur={:?} infl={:?} started={} k={} a={} n={};", self.raw_wait.is_some() as u8, self.raw_parked.is_some() as u8, self.pending.as_ref().map(|x| x.0), self.current, self.inflight.as_ref().map(|x| x.0), self.started, self.kills_left, self.adds_left, self.naks_left);
         for c in &self.conns {
             s.push_str(&format!("{}:{}{}{}{:?}{:?}{:?};", c.name(), c.alive as u8, c.hs_parked.is_some() as u8, c.pooled as u8, c.use_parked.map(|u| u.1), c.acked, c.nak));
         }
@@ -422,6 +472,15 @@ impl World {
         let mut order: Vec<usize> = (0..self.conns.len()).collect();
         order.sort_by_key(|&i| (self.conns[i].node, self.conns[i].ord));
         let mut v = Vec::new();
+        if self.raw_parked.is_some() {
+            // which connection carries the raw statement is the client's choice: while its answer is parked only
+            // steps that do not depend on that connection's identity are offered
+            v.push("ack-raw".to_string());
+            if self.stats.steps < self.cfg.max_steps && self.adds_left > 0 {
+                v.push("add".to_string());
+            }
+            return v;
+        }
         for &i in &order {
             let c = &self.conns[i];
             if c.alive && c.hs_parked.is_some() {
@@ -431,7 +490,7 @@ impl World {
                 v.push(format!("ack:{}", c.name()));
             }
         }
-        if self.inflight.is_none() && self.pending.is_none() && self.started < self.cfg.calls {
+        if self.inflight.is_none() && self.pending.is_none() && self.raw_wait.is_none() && self.started < self.cfg.calls {
             v.push("call".to_string());
         }
         if v.is_empty() {
@@ -472,16 +531,39 @@ impl World {
             self.started_flags[k] = true;
             let s = self.session.clone();
             let flags = self.flags.clone();
-            let (name_idx, case_sensitive) = self.cfg.ident(k);
+            let spec = self.cfg.spec(k);
             let h = tokio::spawn(async move {
-                let r = s.use_keyspace(KS[name_idx], case_sensitive).await;
-                if std::env::var("C20_DUMP").is_ok() {
-                    eprintln!("use_keyspace({}, {case_sensitive}) returned {r:?}", KS[name_idx]);
-                }
-                flags[k].store(if r.is_ok() { 1 } else { 2 }, Ordering::SeqCst);
-                r.is_ok()
+                let ok = match spec.raw {
+                    Some(text) => {
+                        let r = s.query_unpaged(text, ()).await;
+                        if std::env::var("C20_DUMP").is_ok() {
+                            eprintln!("query_unpaged({text:?}) returned {:?}", r.as_ref().map(|_| ()));
+                        }
+                        r.is_ok()
+                    }
+                    None => {
+                        let r = s.use_keyspace(spec.name, spec.cs).await;
+                        if std::env::var("C20_DUMP").is_ok() {
+                            eprintln!("use_keyspace({:?}, {}) returned {r:?}", spec.name, spec.cs);
+                        }
+                        r.is_ok()
+                    }
+                };
+                flags[k].store(if ok { 1 } else { 2 }, Ordering::SeqCst);
+                ok
             });
-            self.pending = Some((k, h));
+            if spec.raw.is_some() {
+                self.raw_wait = Some((k, h));
+            } else {
+                self.pending = Some((k, h));
+            }
+        } else if action == "ack-raw" {
+            let id = self.raw_parked.take().unwrap();
+            if !self.cluster.release(id) {
+                return Err(stuck("parked answer of the raw USE statement vanished".into()));
+            }
+            // the driver now re-propagates the acknowledged name through the cluster worker
+            self.pending = self.raw_wait.take();
         } else if action == "add" {
             self.adds_left -= 1;
             let n = self.cluster.add_node(NodeSpec::new("dc1", "r3", vec![7_000_000_000_000_000_000])).await.map_err(stuck)?;
@@ -584,8 +666,8 @@ impl World {
                     } else {
                         self.stats.lenient_frames += 1;
                     }
-                    let names: Vec<&str> = allowed.iter().map(|k| self.cfg.ks_name(*k)).collect();
-                    let ok = f.keyspace.as_deref().map(|k| names.contains(&k)).unwrap_or(false);
+                    let names: Vec<String> = allowed.iter().map(|k| self.cfg.ks_name(*k)).collect();
+                    let ok = f.keyspace.as_deref().map(|k| names.iter().any(|n| n == k)).unwrap_or(false);
                     if !ok {
                         let conn = self.conns.iter().find(|c| c.id == e.conn).map(|c| c.name()).unwrap_or_else(|| format!("c{}", e.conn));
                         let (key, what) = match &f.keyspace {
@@ -595,7 +677,7 @@ impl World {
                         return Err(Fail::Violation(
                             key.to_string(),
                             format!(
-                                "request {:?} was issued (after step {}) when use_keyspace had returned Ok for {:?}, but it arrived on connection {conn} (node {}) which had acknowledged {what}; steps: {:?}",
+                                "request {:?} was issued (after step {}) when the call setting the keyspace had returned Ok for {:?}, but it arrived on connection {conn} (node {}) which had acknowledged {what}; steps: {:?}",
                                 rec.text, rec.at_step, names, e.node, self.stats.trace
                             ),
                         ));
@@ -666,6 +748,9 @@ async fn run(cfg: Cfg, ch: &mut Chooser) -> Result<RunStats, Fail> {
     if let Some((_, h)) = w.pending.take() {
         h.abort();
     }
+    if let Some((_, h)) = w.raw_wait.take() {
+        h.abort();
+    }
     w.cluster.shutdown().await;
     res?;
     if !unexpected.is_empty() {
@@ -716,8 +801,14 @@ fn main() {
     // the same name twice (first round may fail with error answers on some or all connections), and the same name
     // with the other case-sensitivity flag
     cfgs.insert(1, Cfg { pool: 1, calls: 2, sharded: false, variant: 1, kills: 1, adds: 1, naks: 2, max_steps: 14 });
-    cfgs.push(Cfg { pool: 1, calls: 2, sharded: false, variant: 2, kills: 1, adds: 1, naks: 1, max_steps: 14 });
+    cfgs.push(Cfg { pool: 1, calls: 2, sharded: false, variant: 2, kills: 1, adds: 1, naks: if thorough { 1 } else { 0 }, max_steps: 14 });
+    // mixed-case / lower-case twin keyspaces, set through raw `USE` statements and through the API
+    cfgs.insert(2, Cfg { pool: 1, calls: 2, sharded: false, variant: 3, kills: 1, adds: 1, naks: 0, max_steps: 14 });
+    cfgs.push(Cfg { pool: 1, calls: 2, sharded: false, variant: 4, kills: 1, adds: 1, naks: 0, max_steps: 14 });
     if thorough {
+        cfgs.push(Cfg { pool: 1, calls: 2, sharded: false, variant: 5, kills: 1, adds: 1, naks: 1, max_steps: 14 });
+        cfgs.push(Cfg { pool: 1, calls: 2, sharded: false, variant: 6, kills: 1, adds: 1, naks: 1, max_steps: 14 });
+        cfgs.push(Cfg { pool: 2, calls: 2, sharded: false, variant: 3, kills: 1, adds: 0, naks: 0, max_steps: 14 });
         cfgs.push(Cfg { pool: 2, calls: 2, sharded: false, variant: 1, kills: 1, adds: 0, naks: 2, max_steps: 14 });
         cfgs.push(Cfg { pool: 1, calls: 2, sharded: true, variant: 0, kills: 1, adds: 1, naks: 1, max_steps: 14 });
         cfgs.push(Cfg { pool: 1, calls: 2, sharded: false, variant: 0, kills: 2, adds: 1, naks: 0, max_steps: 16 });
